@@ -129,6 +129,7 @@ func valuePool() []gval {
 		rComp(tyArr2, true, [2]int{1, 2}), rComp(tyArr2, true, [2]int{2, 1}),
 		rComp(tyR, true, R{"a", 1}), rComp(tyR, false, R{"a", []int{1}}), rComp(tyR, false, R{"a", []int{2}}),
 		rInt(tyLogLevel, 4, slog.LevelWarn), rInt(tyLogLevel, 8, slog.LevelError),
+		rStr(tyString, "l1\nl2", "l1\nl2"), rComp(tyP, true, P{3, "two\nlines"}),
 	}
 }
 
